@@ -2,9 +2,7 @@ package c17
 
 import (
 	"fmt"
-	"runtime/debug"
 	"testing"
-	"testing/synctest"
 	"time"
 
 	"verif.local/engine/driver"
@@ -81,9 +79,12 @@ func jobs(tier string) []driver.Job {
 		for _, mr := range []int{2, 1, 0} {
 			for _, warm := range []bool{false, true} {
 				for _, cb := range combos(th) {
+					if pi > 0 && !(cb.size == 3 && cb.partial < 0 || cb.kind == kNone) {
+						continue // the second parameter set only changes the pacing: one configuration per body kind
+					}
 					cf := cfg{kind: cb.kind, size: cb.size, partial: cb.partial, mr: mr, warm: warm, pol: pi}
 					nsh := 1
-					replay := cb.kind != kOneShot && cb.kind != kGetBodyErr && cb.kind != kBlobOneShot
+					replay := cb.kind != kOneShot && cb.kind != kGetBodyErr
 					if replay && mr == 2 {
 						nsh = 4
 						if th {
@@ -104,7 +105,7 @@ func callJob(cf cfg, alphabet []beh, sh, nsh int) driver.Job {
 	name := fmt.Sprintf("calls/%s/shard%d.%d", cf, sh, nsh)
 	return driver.Job{Name: name, Run: func(c *driver.Ctx) {
 		c.Explore(driver.Scenario{
-			Name: name, Sequential: true, Bounds: explore.Bounds{}, Shard: sh, NShard: nsh,
+			Name: name, Bounds: explore.Bounds{}, Shard: sh, NShard: nsh,
 			Make: func() (func(), func(*vs.Result) *driver.Fail) { return scenario(c, cf, alphabet) },
 		})
 	}}
@@ -113,7 +114,7 @@ func callJob(cf cfg, alphabet []beh, sh, nsh int) driver.Job {
 func scenario(c *driver.Ctx, cf cfg, alphabet []beh) (func(), func(*vs.Result) *driver.Fail) {
 	var fail *driver.Fail
 	f := &fake{alphabet: alphabet, limit: cf.mr + 4, partial: cf.partial}
-	inner := func() {
+	body := func() {
 		base := runCall(cf, f, -1, false)
 		script := append([]beh(nil), f.script...)
 		f.limit = len(f.script) // replays never choose: answers beyond the recorded ones are successes
@@ -161,44 +162,7 @@ func scenario(c *driver.Ctx, cf cfg, alphabet []beh) (func(), func(*vs.Result) *
 			}
 		}
 	}
-	// The engine's own bubble (non-sequential vs.Run) cannot advance the virtual
-	// clock while its scheduler waits (its wake-up channel is created outside the
-	// bubble), so the scenario is Sequential and opens its own synctest bubble on
-	// a helper goroutine; the answers the fake needs are chosen by vs.Choose on
-	// the sequential goroutine, on request.
-	var panicked string
-	body := func() {
-		ask, ans, done := make(chan int), make(chan int), make(chan struct{})
-		f.choose = func(n int) int { ask <- n; return <-ans }
-		go func() {
-			defer close(done)
-			defer func() {
-				if r := recover(); r != nil && panicked == "" {
-					panicked = fmt.Sprintf("bubble: %v", r)
-				}
-			}()
-			synctest.Test(c.T, func(*testing.T) {
-				defer func() {
-					if r := recover(); r != nil {
-						panicked = fmt.Sprintf("%v\n%s", r, debug.Stack())
-					}
-				}()
-				inner()
-			})
-		}()
-		for {
-			select {
-			case n := <-ask:
-				ans <- vs.Choose(n, vs.KInput, "answer")
-			case <-done:
-				return
-			}
-		}
-	}
 	check := func(res *vs.Result) *driver.Fail {
-		if panicked != "" {
-			res.Panics = append(res.Panics, panicked)
-		}
 		if fl := driver.StdFail(res); fl != nil {
 			fl.Detail = fmt.Sprintf("%s\nserver answers: %v\n%s", cf, f.script, fl.Detail)
 			return fl
